@@ -10,6 +10,7 @@ limb on every run): struct plumbing, `extended.Double`, the control skeleton of 
 -/
 import DosModel.Gen.Ed25519Ge
 import DosModel.Gen.Ed25519GeTable
+import DosModel.Gen.Ed25519Sc
 
 namespace Dos.Ge
 open Dos Dos.Ed25519 Dos.FeProg Dos.GeProg Dos.Gen.Ed25519Ge
@@ -226,11 +227,17 @@ def ptSub (p1 p2 : Ext) : Ext := complToExt (complSub p1 (extToCached p2))
 def ptNeg (a : Ext) : Ext := extNeg a
 def ptNull : Ext := extZero
 def ptBase : Ext := baseExt
+/-- the guard of `P.Mul` (fix /repo ec5317f, round 5): `if a[31] > 127 { copy(wide[:], a[:]); scReduce(&red, &wide); a = &red }`
+— a scalar outside the contract `a[31] <= 127` of the window recoding (only `scalar.UnmarshalBinary` makes one) is
+reduced modulo ℓ by the TRANSLATED scReduce on a ‖ 0³² first -/
+def mulScalar (a : Bytes) : Bytes :=
+  if (a.getD 31 0).toNat > 127 then Gen.Ed25519Sc.scReduce shrI (a ++ List.replicate 32 0) else a
+
 /-- `P.Mul(s, A)`: `A = nil` is the base point (non-vartime build) -/
 def ptMul (a : Bytes) (A : Option Ext) : Ext :=
   match A with
-  | none => geScalarMultBase a
-  | some q => geScalarMult a q
+  | none => geScalarMultBase (mulScalar a)
+  | some q => geScalarMult (mulScalar a) q
 def ptMarshal (p : Ext) : Bytes := extToBytes p
 def ptUnmarshal (b : Bytes) : Option Ext := extFromBytes b
 def ptEqual (p q : Ext) : Bool := extToBytes p == extToBytes q
